@@ -6,7 +6,7 @@ from oracle_util import *  # noqa
 from protocol import from_real
 
 ID = "C15"
-LEAN_MODULE = ["SCoda.Props.C15", "SCoda.Props.NotesB", "SCoda.Props.ViewTie", "SCoda.Props.WrapTie"]
+LEAN_MODULE = ["SCoda.Props.C15", "SCoda.Props.NotesB", "SCoda.Props.ViewTie", "SCoda.Props.WrapTie", "SCoda.Props.AbsTie2"]
 LEVEL = "proof"
 CLAUSES = [
     ("sounding set of the merge = union of the inputs' sounding sets (overlaps fused from earliest start to latest end); the merge is well-formed; "
@@ -31,6 +31,8 @@ CLAUSES = [
      "replayed; stated without PosDur for inputs whose canonical sort is well-formed",
      ["SCoda.NotesB.union_statement_false", "SCoda.NotesB.union_partial", "SCoda.NotesB.union_sorted", "SCoda.NotesB.merge_notes_fused_sorted",
       "SCoda.NotesB.order_independent_notes_sorted"]),
+    ('TIE BY TRANSLATION, absolute view with object identity: the dict-heavy / aliasing methods of AbsoluteSequence are re-translated statement by statement on every run (Gen/AbsFns2.lean, tools/py2lean_abs2.py: Message objects live in a heap, a reference is a position tag, stores through any alias update the heap cell, dicts are insertion-ordered association lists, while loops carry proved fuel bounds) and proved equal to the hand models, for every heap and reference list with references into the heap and channels not None: merge read back = the model mergeAbs, no hypothesis',
+     ["SCoda.AbsTie2.merge_refs", "SCoda.AbsTie2.mergeAbs_eq"]),
 ]
 RULE = ("families of 1-3 well-formed sequences x <=4 notes, same and different channels, overlapping and abutting notes, "
         "different lengths, empty sequences; non-trivial = two inputs with notes on a common (channel, pitch)")
